@@ -6,7 +6,7 @@ PROP = {
         "emit::frame::{Frame::{current, push, root, disabled, with, enter, call, in_fn, in_future, from_parts, drop}, EnterGuard::drop, FrameFuture::poll}",
         "emit_core::ctxt::{Ctxt::open_push (default), open_disabled (default), impl Ctxt for &C, impl Ctxt for Option<C>, internal::Slot}",
     ],
-    "bounds": "programs of nesting depth <= 2 (thorough 3) with <= 2 sibling frames per level, frame kind in {push, root, disabled, current}, "
+    "bounds": "quick: a chain of 2 nested frames and a sequence of 2 sibling frames; thorough: depth 2 with <= 2 siblings per level and a chain of 3; frame kind in {push, root, disabled, current}, "
               "entry API in {enter guard (+ optional re-entry), call, with, in_fn}; <= 2 symbolic i32 properties per frame with distinct keys; "
               "two frame-wrapped futures with <= 2 yields each polled in any order (6 steps); a second context instance observed throughout",
     "outside": "the real ThreadLocalCtxt (hash maps in thread-local storage: does not fit CBMC, DESIGN.md section 3) and with it real threads and "
